@@ -9,6 +9,16 @@ HEADER = """module c11m
     integer :: f(-14:26)
     integer :: g
   end type tt
+  type inner_t
+    integer :: x(-14:26)
+    integer :: n
+  end type inner_t
+  type outer_t
+    type(inner_t) :: b(-14:26)
+    integer :: d(-14:26)
+    integer :: g
+    real :: r(10)
+  end type outer_t
 contains
   subroutine sout(x, n)
     integer, intent(out) :: x
@@ -47,7 +57,7 @@ FOOTER = """  end subroutine p
 end module c11m
 """
 
-EXTRA_DECLS = ["    type(tt) :: s, sa(5)", "    integer, allocatable :: z(:), w(:,:)", "    real :: x, y(10)",
+EXTRA_DECLS = ["    type(tt) :: s, sa(5)", "    type(outer_t) :: fs(-14:26), os", "    integer, allocatable :: z(:), w(:,:)", "    real :: x, y(10)",
                "    integer :: vals(8), cnt"]
 
 
@@ -58,38 +68,75 @@ class Gen(minif.BodyGen):
         super().__init__(rng, scalars, arrays1, arrays2, loopvars)
         self.pure_sub = pure_sub
 
+    def sub(self, live):
+        """a subscript expression over loop variables AND scalars (so that it is never a bare literal)"""
+        r = self.rng
+        v = r.choice(live + self.scalars)
+        return r.choice([v, f"{v} + {r.randint(1, 3)}", f"{r.randint(2, 3)} * {v} - 1", f"{r.choice(self.scalars)} - {v}",
+                         f"{r.choice(self.arrays1)}({v})", f"mod({v}, 3)"])
+
+    def sref(self, live, scalar=True):
+        """structure access with array indices on the first / middle / last component (every combination)"""
+        r, S = self.rng, self.sub
+        forms = [lambda: f"fs({S(live)})%g", lambda: f"fs({S(live)})%d({S(live)})", lambda: f"fs({S(live)})%b({S(live)})%n",
+                 lambda: f"fs({S(live)})%b({S(live)})%x({S(live)})", lambda: f"os%b({S(live)})%x({S(live)})",
+                 lambda: f"os%b({S(live)})%n", lambda: f"os%d({S(live)})", lambda: f"fs({S(live)})%b({r.randint(0, 3)})%x({S(live)})",
+                 lambda: f"fs({r.randint(0, 3)})%b({S(live)})%n"]
+        if not scalar:    # array-valued: index on a non-last component only
+            forms = [lambda: f"fs({S(live)})%d", lambda: f"fs({S(live)})%b({S(live)})%x", lambda: f"os%b({S(live)})%x",
+                     lambda: f"fs({S(live)})%d({r.randint(0, 3)}:{S(live)})"]
+        return r.choice(forms)()
+
     def ref(self, live, depth=0):
         r = self.rng
         x = r.random()
         if x < 0.05:
             return r.choice(["s%g", f"s%f({self.subscript(live)})", f"sa({r.randint(1, 5)})%g",
                              f"sa({r.randint(1, 5)})%f({self.subscript(live)})"])
-        if x < 0.10 and depth < 2:
+        if x < 0.13:
+            return self.sref(live)
+        if x < 0.18 and depth < 2:
             a = r.choice(self.arrays1)
             return r.choice([f"size({a})", f"size({a}, 1)", f"lbound({a}, 1)", f"ubound({a}, {r.choice(self.scalars)})",
                              f"size(s%f)", f"size(z)"])
-        if x < 0.14 and depth < 2:
-            return f"pf({super().ref(live)})"
-        if x < 0.17 and depth < 2:
-            return f"fside({r.choice(self.scalars + [self.arrays1[0] + '(' + self.subscript(live) + ')'])})"
+        if x < 0.195 and depth < 2:
+            # inquiry whose first argument carries subscripts (known finding C11-inquiry-subscripts-not-read)
+            a = r.choice(self.arrays1)
+            return r.choice([f"size({a}({self.sub(live)}:))", f"size({self.sref(live, scalar=False)})",
+                             f"ubound({self.sref(live, scalar=False)}, 1)"])
+        if x < 0.23 and depth < 2:
+            return f"pf({r.choice([super().ref(live), self.sref(live)])})"
+        if x < 0.26 and depth < 2:
+            return f"fside({r.choice(self.scalars + [self.arrays1[0] + '(' + self.subscript(live) + ')', self.sref(live)])})"
         return super().ref(live, depth)
 
     def lhs(self, live, allow_scalar=True):
         r = self.rng
-        if r.random() < 0.06:
+        x = r.random()
+        if x < 0.05:
             return r.choice(["s%g", f"s%f({self.subscript(live)})", f"sa({r.randint(1, 5)})%g"])
+        if x < 0.15:
+            return self.sref(live)
         return super().lhs(live, allow_scalar)
 
     def arg(self, live):
         r = self.rng
         x = r.random()
-        if x < 0.35:
+        if x < 0.25:
             return r.choice(self.scalars)
-        if x < 0.7:
+        if x < 0.5:
             return f"{r.choice(self.arrays1)}({self.subscript(live)})"
-        if x < 0.8:
+        if x < 0.58:
             return r.choice(["s%g", f"sa({r.randint(1, 5)})%g", f"s%f({self.subscript(live)})"])
+        if x < 0.85:
+            return self.sref(live, scalar=r.random() < 0.7)
         return self.expr(live, 1)
+
+    def loop_header(self, v, live):
+        r = self.rng
+        if r.random() < 0.2:
+            return f"do {v} = {self.sref(live)}, {r.choice([self.sref(live), str(r.randint(3, 8))])}"
+        return super().loop_header(v, live)
 
     def special(self, live, ind):
         r = self.rng
@@ -102,6 +149,14 @@ class Gen(minif.BodyGen):
             lambda: f"call sarr({a}({r.randint(0, 3)}:{r.randint(4, 9)}), {s})",
             lambda: f"call ext({self.arg(live)}, {self.arg(live)})",
             lambda: f"call random_number(x)",
+            lambda: f"call random_number(fs({self.sub(live)})%r)",
+            lambda: f"call random_number(fs({self.sub(live)})%r({self.sub(live)}))",
+            lambda: f"call system_clock(fs({self.sub(live)})%b({self.sub(live)})%n)",
+            lambda: f"call system_clock(count_rate={self.sref(live)})",
+            lambda: f"call mvbits({self.sref(live)}, 0, 2, {self.sref(live)}, 1)",
+            lambda: f"call sarr({self.sref(live, scalar=False)}, {self.sref(live)})",
+            lambda: f"call sout({self.sref(live)}, {self.sref(live)})",
+            lambda: f"call ext({self.sref(live)}, {self.sref(live, scalar=False)})",
             lambda: f"call random_number(y({r.randint(1, 3)}:{r.randint(4, 9)}))",
             lambda: f"call system_clock(cnt)",
             lambda: f"call system_clock(count_rate={s})",
